@@ -169,7 +169,7 @@ def analyse(case, approx_override=None, skip=()):
     return An
 
 
-def solve(An, rank_gap=(1e-5, 1e-10)):
+def solve(An, rank_gap=(5e-4, 1e-10)):
     """numpy solution of the reference system; None when the rank is numerically ambiguous"""
     S = An.constr if An.constr else None
     R = ref_linalg.solve(An.A, An.rhs, An.Q, S, rank_gap=rank_gap)
